@@ -505,12 +505,18 @@ pub(crate) struct WritersHandle {
 }
 impl WritersHandle {
     fn set_new_spec(&self, new_spec: LogSpecification) -> Result<(), FlexiLoggerError> {
+        #[cfg(feature = "verif_hooks")]
+        crate::verif_hooks::point("spec.enter", None).ok();
         let max_level = new_spec.max_level();
         self.spec
             .write()
             .map_err(|_| FlexiLoggerError::Poison)?
             .update_from(new_spec);
+        #[cfg(feature = "verif_hooks")]
+        crate::verif_hooks::point("spec.updated", None).ok();
         self.reconfigure(max_level);
+        #[cfg(feature = "verif_hooks")]
+        crate::verif_hooks::point("spec.exit", None).ok();
         Ok(())
     }
 
